@@ -121,6 +121,9 @@ func c05DataDump(n *CandidateNode) string {
 	switch n.Kind {
 	case SequenceNode:
 		s := "["
+		if n.Tag != "!!seq" {
+			s = n.Tag + " ["
+		}
 		for i, c := range n.Content {
 			if i > 0 {
 				s += ", "
@@ -130,6 +133,9 @@ func c05DataDump(n *CandidateNode) string {
 		return s + "]"
 	case MappingNode:
 		s := "{"
+		if n.Tag != "!!map" {
+			s = n.Tag + " {"
+		}
 		for i := 0; i+1 < len(n.Content); i += 2 {
 			if i > 0 {
 				s += ", "
@@ -205,4 +211,103 @@ func VerifC05StreamDocuments() {
 	out2, ok2 := c05IdentityStrict(out1)
 	verifAssert(ok2 && out2 == out1, "C05/identity-not-idempotent stream"+label)
 	verifCover("C05/stream-docs/end")
+}
+
+// VerifC05DecoratedCollections: `yq .` on collections that carry a decoration (explicit tag, anchor, both) in flow and
+// block style, at the root, under a key and inside a sequence, with children from the spellings of null (nothing, ~,
+// null), the empty string and ordinary scalars: accepted, same data (a null stays a null, '' stays a string), the
+// collection keeps its tag, second pass identical. Texts are built from solver choices (finite domain: yaml.v3 runs
+// natively).
+func VerifC05DecoratedCollections() {
+	deco := []string{"", "!custom ", "&x ", "&x !custom ", "!!set ", "!!map ", "!!seq ", "!!omap "}[verifChoice("deco", 8)]
+	isMap := verifChoice("kind", 2) == 0
+	flow := verifChoice("flow", 2) == 0
+	if (deco == "!!seq " || deco == "!!omap ") && isMap {
+		return
+	}
+	if (deco == "!!set " || deco == "!!map ") && !isMap {
+		return
+	}
+	vals := []string{"", "~", "null", "''", "x", "1"}
+	v1 := vals[verifChoice("v1", len(vals))]
+	v2 := vals[verifChoice("v2", len(vals))]
+	if deco == "!!set " && (v1 != "" && v1 != "~" && v1 != "null" || v2 != "" && v2 != "~" && v2 != "null") {
+		return
+	}
+	place := verifChoice("place", 3)
+	var body string
+	if flow {
+		if isMap {
+			body = "{a: " + v1 + ", b: " + v2 + "}"
+			if deco == "!!set " && verifChoice("bareKeys", 2) == 1 {
+				body = "{a, b}"
+			}
+		} else {
+			if v1 == "" || v2 == "" {
+				return // a flow sequence has no empty entries
+			}
+			body = "[" + v1 + ", " + v2 + "]"
+		}
+	}
+	var text string
+	switch place {
+	case 0:
+		if flow {
+			text = deco + body + "\n"
+		} else if isMap {
+			text = deco + "\na: " + v1 + "\nb: " + v2 + "\n"
+			if deco != "" {
+				text = "--- " + text
+			}
+		} else {
+			text = deco + "\n- " + v1 + "\n- " + v2 + "\n"
+			if deco != "" {
+				text = "--- " + text
+			}
+		}
+	case 1:
+		if flow {
+			text = "k: " + deco + body + "\nz: 1\n"
+		} else if isMap {
+			text = "k: " + deco + "\n  a: " + v1 + "\n  b: " + v2 + "\nz: 1\n"
+		} else {
+			text = "k: " + deco + "\n  - " + v1 + "\n  - " + v2 + "\nz: 1\n"
+		}
+	default:
+		if flow {
+			text = "- " + deco + body + "\n- z\n"
+		} else if isMap {
+			if deco != "" {
+				text = "- " + deco + "\n  a: " + v1 + "\n  b: " + v2 + "\n- z\n"
+			} else {
+				text = "- a: " + v1 + "\n  b: " + v2 + "\n- z\n"
+			}
+		} else {
+			if deco != "" {
+				text = "- " + deco + "\n  - " + v1 + "\n  - " + v2 + "\n- z\n"
+			} else {
+				text = "- - " + v1 + "\n  - " + v2 + "\n- z\n"
+			}
+		}
+	}
+	verifObserve("text", text)
+	d1, okd1 := c05Data(text)
+	if !okd1 {
+		verifCover("C05/decorated/rejected")
+		return
+	}
+	out1, ok1 := c05IdentityStrict(text)
+	verifAssert(ok1, "C05/identity-failed decorated-collection")
+	if !ok1 {
+		return
+	}
+	verifObserve("out", out1)
+	d2, okd2 := c05Data(out1)
+	verifAssert(okd2, "C05/output-of-the-identity-is-not-accepted-again decorated-collection")
+	if okd2 {
+		verifAssert(d1 == d2, "C05/identity-changed-the-documents decorated-collection")
+	}
+	out2, ok2 := c05IdentityStrict(out1)
+	verifAssert(ok2 && out2 == out1, "C05/identity-not-idempotent decorated-collection")
+	verifCover("C05/decorated/end")
 }
